@@ -221,6 +221,18 @@ Print Assumptions C08_new_bad_limit.
 Example C08_new_bad_limit_ex : runZ pinned unit_size 0 [OLen] = [EPanic PBadLimit].
 Proof. vm_compute. reflexivity. Qed.
 
+(* The control skeleton of the model is hand-written; this pins the part of it that can be counted in
+   the source: per Go function, the number of call sites of every store and heap method and of the
+   callback (Put: Check, Remove, Evict, Store once each, no Access, two onEvict sites, three sizeOf;
+   Get: Access only; Has: Check only; Remove: Check + Remove; Clear: Evict; lruStore.Access: one
+   heap Remove and one Add, no Peek/Len/Pop; Store: one Add; Remove: one heap Remove + one delete;
+   Evict: one Pop + one delete; Check: one Peek).  Recomputed from cache.go/lru.go on every run:
+   a shortcut, a dropped call or a redirected one makes this false (statement ORDER is not covered;
+   that is tied by the correspondence runs only). *)
+Theorem C08_store_shape : store_shape = true.
+Proof. exact store_shape_ok. Qed.
+Print Assumptions C08_store_shape.
+
 (* Machine integers.  From a state with 0 <= size <= limit (C08_consistent) and an accepted value
    size 0 <= valSize <= limit, Put's newSize := c.size + valSize lies in [0, 2*limit] and, when
    2*limit < 2^63, is the same number in int64 arithmetic; every later value of newSize and size is
